@@ -108,6 +108,77 @@ pub fn c04(run: &Run) -> (u64, u64) {
     (a, a)
 }
 
+/// C08 on the optimised build: every printed info line of every root, replayed on the reference model.
+pub fn c08(run: &Run) -> (u64, u64) {
+    let Some(bin) = need_bin(run) else { return (0, 0) };
+    let roots = crate::searchchk::tactical_roots();
+    let maxd = if run.quick() { 7 } else { 10 };
+    let n = AtomicU64::new(0);
+    par_for(roots.len(), |i| {
+        let g = &roots[i];
+        let (_, root) = g.build().unwrap();
+        let lines = vec!["setoption name Hash value 1".to_string(), position_line(g), format!("go depth {maxd}")];
+        let Ok(mut e) = Engine::start(&bin) else { return };
+        for l in &lines {
+            let _ = e.send(l);
+        }
+        let got = match e.wait_for("bestmove", Duration::from_secs(120)) {
+            Ok(v) => v,
+            Err(m) => {
+                run.violation("blackbox-no-bestmove", format!("blackbox-no-bestmove|{}", lines.join(" ; ")), case(&lines), m);
+                return;
+            }
+        };
+        let mut expect = 1u32;
+        for l in got.iter().filter(|l| l.starts_with("info ")) {
+            n.fetch_add(1, Ordering::Relaxed);
+            let w: Vec<&str> = l.split_whitespace().collect();
+            let field = |k: &str| w.iter().position(|x| *x == k).and_then(|i| w.get(i + 1)).copied();
+            let depth: u32 = field("depth").and_then(|x| x.parse().ok()).unwrap_or(0);
+            let vio = |kind: &str, detail: String| run.violation(kind, format!("{kind}|blackbox|{}|depth {depth}", lines.join(" ; ")), case(&lines), format!("optimised build, {}: {detail} (line: {l})", g.key()));
+            if depth != expect || depth > maxd {
+                vio("info-depth-sequence", format!("depth {depth} printed where {expect} was expected"));
+            }
+            expect = depth + 1;
+            let pv: Vec<&str> = match w.iter().position(|x| *x == "pv") {
+                Some(i) => w[i + 1..].to_vec(),
+                None => vec![],
+            };
+            if pv.is_empty() {
+                vio("pv-empty", "no principal variation".into());
+                continue;
+            }
+            let mut p = root.clone();
+            let mut ok = true;
+            for (j, m) in pv.iter().enumerate() {
+                match p.legal_moves().into_iter().find(|x| x.uci() == *m) {
+                    Some(rm) => p = p.apply(&rm),
+                    None => {
+                        vio("pv-illegal-move", format!("move {} ({m}) is not legal in {}", j + 1, p.to_fen()));
+                        ok = false;
+                        break;
+                    }
+                }
+            }
+            if !ok {
+                continue;
+            }
+            if let Some(i) = w.iter().position(|x| *x == "mate") {
+                let nm: i64 = w.get(i + 1).and_then(|x| x.parse().ok()).unwrap_or(0);
+                let want = if nm > 0 { 2 * nm - 1 } else { -2 * nm } as usize;
+                let side_ok = if nm > 0 { p.side != root.side } else { p.side == root.side };
+                if nm == 0 || pv.len() != want || !p.is_checkmate() || !side_ok {
+                    vio("mate-announcement", format!("mate {nm} printed with {} plies (expected {want}), ends in {}", pv.len(), p.to_fen()));
+                }
+            }
+        }
+    });
+    let a = n.load(Ordering::Relaxed);
+    run.family("E7-PRINTED-LINES", &format!("{} roots x go depth {maxd} on the optimised binary: every printed info line replayed on the reference model", roots.len()), roots.len() as u64, a, true, "");
+    *run.traces_validated.lock().unwrap() += a;
+    (roots.len() as u64, a)
+}
+
 /// C13 on the optimised build.
 pub fn c13(run: &Run) -> (u64, u64) {
     let Some(bin) = need_bin(run) else { return (0, 0) };
